@@ -4,7 +4,7 @@
    [vm_compute. reflexivity.] and re-checked by the kernel at Qed. *)
 From Coq Require Import List ZArith QArith Bool Arith Lia.
 From GV Require Import Lib.Tree Lib.Graph16 Lib.PolyRefl16 Model.QCount Model.CliqueEq
-                       Proofs.QCountP Proofs.CliqueEqP.
+                       Proofs.QCountP Proofs.CliqueEqP Proofs.CliqueGen Proofs.CrossGen.
 Import ListNotations.
 
 (* n = 7 (2^21 edge subsets): the recursion against the brute-force count.  QQ(7, .) is not included:
@@ -26,6 +26,14 @@ Proof.
 Qed.
 Print Assumptions C16_Q_count_upto_7.
 
+(* growth: tau = 7 of the clique identity from the count for n <= 7 and the general regrouping theorem
+   (the polynomial-normal-form route would need all 2^21 edge subsets of K_7 as polynomials) *)
+Theorem C16_clique_identity_upto_7 : forall tau, (2 <= tau <= 7)%nat ->
+  forall (phi : Q) (Hs : list Q), length Hs = (tau - 1)%nat ->
+    (clique_val tau phi Hs == exact_val (seq 0 tau) (all_edges tau) 0 phi (fun v => nth (v - 1) Hs 0))%Q.
+Proof. exact (clique_identity_from_Q_count 7 C16_Q_count_upto_7). Qed.
+Print Assumptions C16_clique_identity_upto_7.
+
 Lemma cross_grid_20 : cross_grid 20 = true.
 Proof. vm_compute. reflexivity. Qed.
 
@@ -33,6 +41,19 @@ Theorem C16_Q_cross_upto_20 : forall n k, (1 <= n <= 20)%nat -> (0 <= k <= tri (
   Qv n k = cross n k.
 Proof. exact (cross_grid_lift 20 cross_grid_20). Qed.
 Print Assumptions C16_Q_cross_upto_20.
+
+(* growth: with cross = brute (general, Proofs/CrossGen.v) the comparison above is a COUNT, and the regrouping
+   theorem turns it into the clique identity for tau <= 20 *)
+Theorem C16_Q_count_upto_20 : forall n k, (1 <= n <= 20)%nat -> (0 <= k <= tri (Z.of_nat n))%Z ->
+  Qv n k = brute n (Z.to_nat k).
+Proof. exact (Q_count_from_cross_grid 20 cross_grid_20). Qed.
+Print Assumptions C16_Q_count_upto_20.
+
+Theorem C16_clique_identity_upto_20 : forall tau, (2 <= tau <= 20)%nat ->
+  forall (phi : Q) (Hs : list Q), length Hs = (tau - 1)%nat ->
+    (clique_val tau phi Hs == exact_val (seq 0 tau) (all_edges tau) 0 phi (fun v => nth (v - 1) Hs 0))%Q.
+Proof. exact (clique_identity_from_Q_count 20 C16_Q_count_upto_20). Qed.
+Print Assumptions C16_clique_identity_upto_20.
 
 Lemma cycle_ok_upto_14 : forallb cycle_ok (seq 3 12) = true.
 Proof. vm_compute. reflexivity. Qed.
